@@ -117,6 +117,10 @@ def explain(got, exp):
                 w["explained_by_axes"] = list(p)
                 break
         else:
+            for fl in itertools.product((False, True), repeat=3):
+                if any(fl) and got.shape == exp.shape and values_equal(got[tuple(slice(None, None, -1) if f else slice(None) for f in fl)], exp):
+                    w["explained_by_flip_of_axes_xyz"] = [k for k in range(3) if fl[k]]
+                    break
             if got.size == exp.size and values_equal(got.ravel(), exp.ravel()) and got.shape != exp.shape:
                 w["explained_by"] = "same linear order, different dims"
             elif got.size == exp.size and values_equal(np.reshape(got, exp.shape, order="F"), exp) and got.shape != exp.shape:
